@@ -39,7 +39,9 @@ type GhostField struct {
 }
 
 func typeKey(t types.Type) string {
-	return types.TypeString(t, func(p *types.Package) string { return p.Name() })
+	s := types.TypeString(t, func(p *types.Package) string { return p.Name() })
+	// one key for the empty interface however it is spelled
+	return strings.ReplaceAll(s, "interface{}", "any")
 }
 
 func newUniverse(prog *ssa.Program, repo map[string]bool) *Universe {
